@@ -6,12 +6,12 @@
 
    (not through Leibniz equality with [Z2F z]: products such as 0 * (-3) are -0, not +0). *)
 From Coq Require Import ZArith Reals Floats Lia Lra Bool.
-From Flocq Require Import Core.Core IEEE754.BinarySingleNaN IEEE754.PrimFloat.
 From Clip Require Import base.FloatModel.
+From Flocq Require Import Core.Core IEEE754.BinarySingleNaN IEEE754.PrimFloat.
 Local Open Scope Z_scope.
 
-Definition fint (f : float) (z : Z) : Prop :=
-  is_finite (Prim2B f) = true /\ B2R (Prim2B f) = IZR z.
+Definition fint (f : PrimFloat.float) (z : Z) : Prop :=
+  BinarySingleNaN.is_finite (Prim2B f) = true /\ B2R (Prim2B f) = IZR z.
 
 Definition small (z : Z) : Prop := Z.abs z <= 2 ^ 53.
 
